@@ -384,6 +384,9 @@ def _exchange_code_for_token(
 # ---------------------------------------------------------------------------
 
 
+_DOT_SEGMENTS = frozenset(("..", ".%2e", "%2e.", "%2e%2e"))
+
+
 def _validate_original_url(url: str, prefix: str) -> str:
     """Validate the original URL is relative and within the expected prefix."""
     if len(url) > _MAX_ORIGINAL_URL_LEN:
@@ -392,7 +395,20 @@ def _validate_original_url(url: str, prefix: str) -> str:
     if parsed.scheme or parsed.netloc:
         # Not a relative URL — fall back to the prefix root
         return prefix or "/"
-    if prefix and not url.startswith(prefix):
+    # What matters is where a browser ends up, and browsers read a Location
+    # differently from urlparse: a backslash is a slash, any run of leading
+    # slashes introduces an authority, tab/CR/LF vanish, and dot segments are
+    # resolved.  Anything relying on those rules is not a plain path below
+    # the prefix.
+    path = url.split("?", 1)[0].split("#", 1)[0]
+    if (
+        not path.startswith("/")
+        or path.startswith("//")
+        or _has_browser_divergent_chars(path)
+        or any(segment.lower() in _DOT_SEGMENTS for segment in path.split("/"))
+    ):
+        return prefix or "/"
+    if prefix and path != prefix and not path.startswith(prefix + "/"):
         return prefix or "/"
     return url
 
